@@ -86,7 +86,9 @@ def _fold(e, env, what, res, key, file, line, fn):
     return None
 
 
-def cpprange(facts: CppFacts, parts=("write", "mask", "keepmask")):
+def cpprange(facts: CppFacts, parts=("write", "mask", "keepmask"), ub_only=False):
+    """`ub_only`: keep only the findings about undefined behaviour met while folding (bad shifts, signed overflow) --
+    what C04 is about; wrong-but-defined bounds and masks concern C02/C03."""
     res = RuleResult("R-CPPRANGE")
 
     def method(cls, name):
@@ -320,6 +322,8 @@ def cpprange(facts: CppFacts, parts=("write", "mask", "keepmask")):
                             res.add(f"{mi.file}|OffsetBitBlock::MaskInValue|w={w}|mask", f"the keep-mask for a {size}-bit field at bit {off} of a "
                                     f"{w}-bit block folds to {X.convert(r, t).v:#x}; the bits outside the field are {want:#x}: a write "
                                     "changes (or fails to clear) neighbouring bits", mi.file, mi.line, "OffsetBitBlock::MaskInValue")
+    if ub_only:
+        res.findings = [f for f in res.findings if f.construct.endswith("|ub")]
     res.samples = ["UIntView/IntView/BcdView bounds folded for k = 1..64; EnumView for every (block, k); MaskToNBits and MaskInValue masks"]
     res.analysed = [PRELUDE, "runtime/cpp/emboss_enum_view.h", "runtime/cpp/emboss_bit_util.h", "runtime/cpp/emboss_memory_util.h"]
     return res
